@@ -186,6 +186,23 @@ fn generate(cli: &Cli) -> Vec<Case> {
             let (sc, status_expected, ping) = base_scenario(&mut rng, b);
             out.push(Case { sc, class: format!("{bname}/baseline"), kind: Kind::Baseline, intent: Some(b.intent), status_expected, ping, honest_enc_response: b.intent != Intent::Status });
         }
+        // slow clients: a pause of more than one / two keep-alive periods before each client step
+        // (nothing may be sent to the client out of order meanwhile, and the exchange still completes)
+        {
+            let (probe, _, _) = base_scenario(&mut rng, b);
+            let steps: Vec<usize> = probe.client.script.iter().enumerate().filter(|(i, a)| *i > 0 && matches!(a, Act::Send { .. } | Act::EncryptionResponse)).map(|(i, _)| i).collect();
+            for step in steps {
+                for secs in [17u64, 33] {
+                    let (mut sc, status_expected, ping) = base_scenario(&mut rng, b);
+                    let what = match &sc.client.script[step] {
+                        Act::Send { label, .. } => label.clone(),
+                        _ => "EncryptionResponse".to_string(),
+                    };
+                    sc.client.script.insert(step, Act::Sleep(Duration::from_secs(secs)));
+                    out.push(Case { sc, class: format!("{bname}/slow-before-{what}/{secs}s"), kind: Kind::Baseline, intent: Some(b.intent), status_expected, ping, honest_enc_response: b.intent != Intent::Status });
+                }
+            }
+        }
         // complete single-deviation enumeration: position × deviant id × {replace, insert before}
         let positions: Vec<(&str, i32)> = match b.intent {
             Intent::Status => vec![("Handshake", 0), ("StatusRequest", 0), ("StatusPing", 1)],
